@@ -4,8 +4,9 @@ Units: Square::{is_empty_or_color, is_color}, knight_moves, pawn_moves, king_mov
 get_moves.  Each appends exactly the target set of its piece kind: sound, complete, duplicate-free, prefix unchanged.
 The contracts are set-based, so reordering an offset table does not break the proof.
 """
+MODE_REQ = ['@C01| move_generation_mode == MoveGenerationMode::AllMoves', '@C13| move_generation_mode == MoveGenerationMode::CapturesOnly']
 KN = {
-    'requires': ['wf(board.board)', 'on_board(row as int, col as int)'],
+    'requires': ['wf(board.board)', 'on_board(row as int, col as int)'] + MODE_REQ,
     'ensures': [
         'appended(old(moves)@, final(moves)@)',
         'forall|i: int| old(moves)@.len() <= i < final(moves)@.len() ==> knight_target(board.board, piece.color, row as int, col as int, #[trigger] final(moves)@[i], move_generation_mode)',
@@ -355,7 +356,7 @@ def pawn_ann():
                 }
             }""" % {'fwd': fwd, 'lc': lc, 'rc': rc, 'P': P}
     return {
-        'requires': ['wf(board.board)', 'on_board(row as int, col as int)', 'old(moves)@.len() == 0'],
+        'requires': ['wf(board.board)', 'on_board(row as int, col as int)', 'old(moves)@.len() == 0'] + MODE_REQ,
         'ensures': ['appended(old(moves)@, final(moves)@)',
             'forall|i: int| old(moves)@.len() <= i < final(moves)@.len() ==> pawn_target(%s, #[trigger] final(moves)@[i], move_generation_mode)' % P,
             'forall|t: Point| #[trigger] pawn_target(%s, t, move_generation_mode) ==> has_from(final(moves)@, old(moves)@.len() as int, t)' % P,
@@ -380,7 +381,7 @@ def king_ann():
         'forall|u: Point| #[trigger] king_target_upto(%s, u, move_generation_mode, %s, %s) ==> has_from(moves@, old(moves)@.len() as int, u)' % (P, i, j),
     ]
     return {
-        'requires': ['wf(board.board)', 'on_board(row as int, col as int)', 'at(board.board, row as int, col as int) == Square::Full(piece)'],
+        'requires': ['wf(board.board)', 'on_board(row as int, col as int)', 'at(board.board, row as int, col as int) == Square::Full(piece)'] + MODE_REQ,
         'ensures': ['appended(old(moves)@, final(moves)@)',
             'forall|k: int| old(moves)@.len() <= k < final(moves)@.len() ==> king_target(board.board, piece.color, row as int, col as int, #[trigger] final(moves)@[k], move_generation_mode)',
             'forall|t: Point| #[trigger] king_target(board.board, piece.color, row as int, col as int, t, move_generation_mode) ==> has_from(final(moves)@, old(moves)@.len() as int, t)',
@@ -533,7 +534,7 @@ pub proof fn lemma_rook_bishop_disjoint(bd: [[Square; 12]; 12], color: PieceColo
 """
 QP = 'board.board, piece.color, row as int, col as int'
 QUEEN = {
-    'requires': ['wf(board.board)', 'on_board(row as int, col as int)'],
+    'requires': ['wf(board.board)', 'on_board(row as int, col as int)'] + MODE_REQ,
     'ensures': A_ENS('queen_target(' + QP + ', %s, move_generation_mode)'),
     'body_start': 'let ghost m0 = moves@;',
     'before_text': [('bishop_moves(piece, row, col, board, moves, move_generation_mode);', 0, 'let ghost m1 = moves@;')],
@@ -567,7 +568,7 @@ GET_MOVES = {
     'requires': ['wf(board.board)', 'kings_ok(board)', 'on_board(row as int, col as int)',
                  'at(board.board, row as int, col as int) == Square::Full(piece)', 'piece.color == board.to_move',
                  '!attacked_by(board.board, board.to_move, enemy_king_sq(board).0 as int, enemy_king_sq(board).1 as int)',
-                 'old(moves)@.len() == 0'],
+                 'old(moves)@.len() == 0'] + MODE_REQ,
     'ensures': [
         'forall|i: int| 0 <= i < final(moves)@.len() ==> pseudo_target(%s, #[trigger] final(moves)@[i], move_generation_mode) && target_ok(%s, final(moves)@[i])' % (GP, GP),
         'forall|t: Point| #[trigger] pseudo_target(%s, t, move_generation_mode) ==> exists|i: int| 0 <= i < final(moves)@.len() && #[trigger] final(moves)@[i] == t' % GP,
@@ -598,7 +599,7 @@ A_ENS = lambda pred: ['appended(old(moves)@, final(moves)@)',
 
 def build(g):
     o, i = slider_ann('rook_dirs()', 'rook_moves')
-    RK = {'requires': ['wf(board.board)', 'on_board(row as int, col as int)'],
+    RK = {'requires': ['wf(board.board)', 'on_board(row as int, col as int)'] + MODE_REQ,
           'ensures': A_ENS('slider_target(board.board, piece.color, row as int, col as int, %s, move_generation_mode, rook_dirs(), 4)'),
           'body_start': 'let ghost row_0 = row as int; let ghost col_0 = col as int;',
           'loops': {0: o, 1: i}, 'expect': {'loops': ['for', 'while'], 'contains': ['&[(1, 0), (-1, 0), (0, 1), (0, -1)]']}}
